@@ -194,6 +194,33 @@ theorem xyz_repaired_safety_complete (N : Nat) (hN : 1 ≤ N) (frames : List Xyz
 example : (1 ≤ 2) ∧ (∀ f ∈ witness, f.WF 2) ∧ [37, 42, 88].Pairwise (· ≤ ·) := by
   refine ⟨by decide, witness_wf, by decide⟩
 
+/-! ## polls without growth, polls before the file exists
+
+`xyz_repaired_exact` and `lmp_exact` quantify over *every* cut list, so schedules with several polls at the
+same size (also as the last polls) are included.  Two consequences spelled out: -/
+
+/-- a poll of an empty file — or of a file that does not exist yet, for which
+    `read_and_process_content` returns `[]` without calling the reader — returns nothing, moves nothing -/
+theorem poll_empty_file (v : Variant) (pos : Nat) :
+    xyzReader v [] pos = .ok ([], pos) ∧ lmpReader [] pos = .ok ([], pos) := by
+  refine ⟨?_, ?_⟩ <;> simp [xyzReader, lmpReader, lines, xyzRun, lmpRun, finish, xInit, lInit]
+
+/-- **a poll without growth returns nothing** (exact reader): the second of two polls at the same size
+    has an empty stage, whatever happened before and whatever follows -/
+theorem no_growth_poll_returns_nothing {F : Type} (lens : List Nat) (dec : List F) (c : Nat) (cs : List Nat)
+    (done : Nat) : (exactStages lens dec (c :: c :: cs) done)[1]? = some [] := by
+  have hres := completeCount_resume (lens.drop done) (completeCount (lens.drop done) (c - sumLens (lens.take done)))
+    (c - sumLens (lens.take done)) (Nat.le_refl _)
+  have h0 : completeCount ((lens.drop done).drop (completeCount (lens.drop done) (c - sumLens (lens.take done))))
+      (c - sumLens (lens.take done)
+        - sumLens ((lens.drop done).take (completeCount (lens.drop done) (c - sumLens (lens.take done))))) = 0 := by
+    omega
+  simp only [exactStages, List.getElem?_cons_succ, List.getElem?_cons_zero, Option.some.injEq]
+  rw [sumLens_take_add', ← List.drop_drop, Nat.sub_add_eq, h0]
+  simp
+
+example : exactStages [43, 45] [0, 1] [43, 43, 43, 88, 88, 88] 0 = [[0], [], [], [1], [], []] := by decide
+
 /-! ## non-ASCII text
 
 The content is bytes; '\n' is the only structural byte.  All bytes of UTF-8 multi-byte characters are
